@@ -588,6 +588,11 @@ protected:
 			setzero();
 			return *this;
 		}
+		// take the logarithm in double precision: a float logarithm is only good to 24 bits, which mis-rounds
+		// float sources near a midpoint of the (finer) lns exponent lattice and makes lns(float(x)) differ from lns(double(x))
+		if constexpr (sizeof(Real) < sizeof(double)) {
+			return convert_ieee754(static_cast<double>(v));
+		}
 
 		// check if the value is in the representable range
 		// NOTE: this is required to protect the rounding code below, which only works for values between [minpos, maxpos]
